@@ -372,6 +372,10 @@ macro_rules! interp {
                         (exec(0, || { regs[r] = $V::with_capacity(arg(2)); }), exec(1, || { mirs[r] = Vec::with_capacity(arg(2)); })) }
                     "drop" => { let r = reg(w[1]);
                         (exec(0, || { regs[r] = $V::new(); }), exec(1, || { mirs[r] = Vec::new(); })) }
+                    // the container is owned by a frame that unwinds: it is destroyed while the thread is panicking
+                    "unwind_drop" => { let r = reg(w[1]);
+                        (exec(0, || -> () { let _owned = std::mem::take(&mut regs[r]); if _owned.len() < usize::MAX { panic!("unwinding with a live container") } }),
+                         exec(1, || -> () { let _owned = std::mem::take(&mut mirs[r]); if _owned.len() < usize::MAX { panic!("unwinding with a live container") } })) }
                     "push" => { let r = reg(w[1]); let (a, b) = (mk(0, arg(2)), mk(1, arg(2)));
                         (exec(0, || { regs[r].push(a); }), exec(1, || { mirs[r].push(b); })) }
                     "pop" => { let r = reg(w[1]);
